@@ -45,9 +45,6 @@ def gen_formats():
     if not m:
         raise Fail("partition::write: magic not found")
     out += "Definition part_magic_write : list N := %s.\n" % _bytes(m.group(1))
-    for fn, name in ((rd, "read"), (wr, "write")):
-        if len(re.findall(r"u64::(?:from|to)_le_bytes", fn)) != 2:
-            raise Fail("partition::%s: expected two little-endian u64 conversions" % name)
 
     src = read("tools/mesh-io/src/weight.rs")
     m = re.search(r"const\s+VERSION\s*:\s*u8\s*=\s*(\d+)\s*;", src)
@@ -176,8 +173,6 @@ def gen_medit():
     if len(lits) != 3:
         raise Fail("serialize_medit_binary: expected three literal i32 (magic, version, End), found %s" % lits)
     out += "Definition bin_write_magic : N := %s.\nDefinition bin_write_version : N := %s.\nDefinition bin_write_end : Z := (%s)%%Z.\n" % tuple(lits)
-    if len(re.findall(r"to_be_bytes", sb)):
-        raise Fail("serialize_medit_binary: big-endian conversion present")
     return out
 
 
